@@ -7,6 +7,7 @@ import (
 	"os"
 
 	"verif/internal/core"
+	"verif/internal/gen"
 	"verif/internal/rt"
 )
 
@@ -15,6 +16,8 @@ func main() {
 		usage()
 	}
 	switch os.Args[1] {
+	case "worker":
+		gen.WorkerMain()
 	case "check":
 		if len(os.Args) < 4 {
 			usage()
@@ -36,6 +39,8 @@ func check(prop, tier string) int {
 	switch prop {
 	case "C03", "C04", "C07", "C08":
 		code, err = rt.RunSeq(prop, tier)
+	case "C01", "C02", "C09", "C10", "C11", "C12", "C13", "C14", "C16", "C20":
+		code, err = gen.RunGen(prop, tier)
 	case "C05", "C06":
 		code, err = rt.RunConc(prop, tier)
 	default:
